@@ -191,6 +191,7 @@ inductive CPc
   | idle                -- `load()` not called yet
   | waiting             -- in `event.wait`
   | reading             -- `event.wait` returned True; next: the locked read
+  | yielding            -- lock released with `new_items`, `done`; next: yield them, loop or finish
   | done                -- saw `_loaded`, generator finished, event removed
 deriving Repr, DecidableEq
 
@@ -204,11 +205,13 @@ structure TH where
   cpc : CPc
   yielded : Nat             -- `items_yielded`
   out : List Text           -- everything the current `load()` call has yielded
+  batch : List Text         -- `new_items` of the last locked read, not yet yielded
+  sawDone : Bool            -- `done` of the last locked read
   pend : Option Text        -- `append_string` between its locked insert and `store_string`
 deriving Repr, DecidableEq
 
 inductive Step
-  | cstart | cwait | cread
+  | cstart | cwait | cread | cyield
   | lreset | lsnap | lappend | lnotify | ldone | lfinal
   | ains (s : Text) | astore
 deriving Repr, DecidableEq
@@ -217,7 +220,8 @@ deriving Repr, DecidableEq
     `append_string(p)` for every `p` in `pre` (before any `load()`). -/
 def TH.init (old pre : List Text) : TH :=
   { storage := old ++ pre, strs := pre.reverse, loaded := false, lpc := .notStarted,
-    remaining := [], ev := false, cpc := .idle, yielded := 0, out := [], pend := none }
+    remaining := [], ev := false, cpc := .idle, yielded := 0, out := [], batch := [],
+    sawDone := false, pend := none }
 
 /-- one atomic step; a step that is not enabled leaves the state unchanged -/
 def step (st : TH) : Step → TH
@@ -232,12 +236,16 @@ def step (st : TH) : Step → TH
     -- `event.wait(timeout=0.5)`; a timeout just repeats the wait
     if st.cpc = .waiting ∧ st.ev then { st with cpc := .reading } else st
   | .cread =>
-    -- `with lock: new_items = strs[items_yielded:]; done = _loaded; event.clear()`,
-    -- then all new items are yielded
+    -- `with lock: new_items = strs[items_yielded:]; done = _loaded; event.clear()`
     if st.cpc = .reading then
-      let new := st.strs.drop st.yielded
-      { st with ev := false, yielded := st.yielded + new.length, out := st.out ++ new,
-                cpc := if st.loaded then .done else .waiting }
+      { st with ev := false, batch := st.strs.drop st.yielded, sawDone := st.loaded,
+                cpc := .yielding }
+    else st
+  | .cyield =>
+    -- `items_yielded += len(new_items)`, yield them all, `if done: break` (else wait again)
+    if st.cpc = .yielding then
+      { st with yielded := st.yielded + st.batch.length, out := st.out ++ st.batch, batch := [],
+                cpc := if st.sawDone then .done else .waiting }
     else st
   | .lreset =>
     if st.lpc = .started then { st with strs := [], lpc := .called } else st
